@@ -29,7 +29,7 @@ ObsNow(p, n, o) ==
   LET u == U(p)  pt == ObsPoint(u, n) IN
   IF pt[1] = 0 THEN 0 ELSE ReadAt(u, pt, Desc(u, pt[1]).sig, o, InpOf(p, 1, v_val))
 Names(p) == OutNamesT[p]
-TInit == /\ v_pid \in PIDs
+TInit == /\ v_pid \in RunnableT
          /\ v_val \in Prod(v_pid, 1)
          /\ v_out = InitOuts(v_pid)
          /\ v_tick = 0 /\ v_settled = FALSE /\ v_mem = <<>> /\ v_lost = FALSE
